@@ -698,7 +698,9 @@ func c05gen(w *World, r *Report, isPersist func(*Site) bool) {
 		}
 		o1 := w.Tracer().Origins(c.Common().Args[0])
 		o2 := w.Tracer().Origins(c.Common().Args[1])
-		sumSide := func(o *Origin) bool { return o.HasCall("VestingPool.GetCurrentlyLocked") || o.HasPath("VestingPool.InitiallyLocked") }
+		sumSide := func(o *Origin) bool {
+			return o.HasCall("VestingPool.GetCurrentlyLocked") || o.HasPath("VestingPool.InitiallyLocked")
+		}
 		balSide := func(o *Origin) bool { return o.HasCall("BankKeeper.GetBalance") }
 		if (sumSide(o1) && balSide(o2)) || (sumSide(o2) && balSide(o1)) {
 			found = true
